@@ -536,6 +536,45 @@ func runMuxReaccept(role string) (impl, pred string) {
 	return impl, "ok"
 }
 
+// runMuxIdZero: a caller-chosen broker ID of 0 (IDs need not come from NextId) is an ID like any other: its listener is
+// reached, and the main connection keeps working.
+func runMuxIdZero(role string) (impl, pred string) {
+	p, err := newGrpcPair(true)
+	if err != nil {
+		return "setup-error", "FAIL:setup"
+	}
+	defer p.close()
+	acceptor, dialler := p.plug, p.host
+	if role == "client" {
+		acceptor, dialler = p.host, p.plug
+	}
+	go func() {
+		defer func() { recover() }()
+		servePingPong(acceptor, 0)
+	}()
+	time.Sleep(150 * time.Millisecond)
+	ans, conn, err := pingKeep(dialler, 0, 8*time.Second)
+	if conn != nil {
+		defer conn.Close()
+	}
+	first := "ok"
+	if err != nil || ans != "0" {
+		first = "failed"
+	}
+	mainOK := true
+	if err, hung, pp := withTimeout(5*time.Second, p.client.Ping); err != nil || hung || pp != nil {
+		mainOK = false
+	}
+	impl = fmt.Sprintf("id0=%s main=%s", first, b01(mainOK))
+	switch {
+	case first != "ok":
+		return impl, "FAIL:id-zero-not-routed-to-its-listener"
+	case !mainOK:
+		return impl, "FAIL:main-connection-dead"
+	}
+	return impl, "ok"
+}
+
 // ---------------------------------------------------------------- C07: timed histories, no multiplexing
 
 func runGrpcHistory(h *history) ([]opResult, error) {
@@ -986,6 +1025,11 @@ func init() {
 		parallel(len(rds), len(rds), func(i int) { rds[i].impl, rds[i].pred = runMuxRedial(rds[i].role, 5600*time.Millisecond) })
 		for _, x := range rds {
 			o.emit("!C08.redial role="+x.role+" gap=5600", x.impl, x.pred)
+		}
+		// a caller-chosen ID of 0
+		for _, role := range []string{"server", "client"} {
+			impl, pred := runMuxIdZero(role)
+			o.emit("!C08.id-zero role="+role, impl, pred)
 		}
 		// the same id accepted again after its first brokered server was shut down
 		for _, role := range []string{"server", "client"} {
